@@ -12,10 +12,10 @@ func init() {
 
 // the documented conflicts and the condition each is raised under (from the property statement)
 var rejectionSpecs = []e5path.RejectionSpec{
-	{MsgPrefix: "duplicate type definition", Requires: []string{"slices.Contains", "is true"}},
+	{MsgPrefix: "duplicate type definition", Requires: []string{"slices.Contains|]#1 is true|] is true", "is true"}}, // membership in the list, or in a set, of the types seen so far
 	{MsgPrefix: "file is not a module", Requires: []string{".Metadata"}},
 	{MsgPrefix: "duplicate condition", Requires: []string{"#1 is true"}},
-	{MsgPrefix: "extended type", Requires: []string{"== -1 is true"}},
+	{MsgPrefix: "extended type", Requires: []string{"== -1 is true|#1 is false|== nil is true"}}, // the base type was looked for and not found (index -1, ok false, or nil)
 	{MsgPrefix: "relation", Requires: []string{"slices.Contains|.Relations[", "is true"}},
 }
 
